@@ -208,6 +208,9 @@ def build_world(d: _D, max_refs=4, for_validate=False):
             vname = d.pick(["v", "my_dir", "p-1"] if for_validate else ["v", "my_dir", "p-1", "a.b", "stage0.x", "data", "0"])
             variables[vname] = "/var/" + vname.replace(".", "_")
             producer = "%(" + vname + ")s"
+            if not for_validate and d.i(3) == 0:
+                # the variable is only part of the first segment: still a name nobody can know before it is resolved
+                producer = d.pick(["run-%s", "%s.dat", "out.%s", "x%sy"]) % producer
         else:
             if for_validate or d.i(3) > 0:
                 s, producer = d.pick(comps)
